@@ -28,7 +28,7 @@ git apply "$SRC/patch.diff" || { echo "PATCH DOES NOT APPLY"; exit 1; }
 go build ./... >/tmp/mut/out/$P/$K/build.log 2>&1; r_build=$?
 r_patch=$(run_demo patched)
 # existing tests of touched packages (demo excluded)
-pkgs=$(git diff --name-only | xargs -n1 dirname | sort -u | sed 's#^#./#' | tr '\n' ' ')
+pkgs=$(git diff --name-only | grep "\.go$" | xargs -n1 dirname | sort -u | sed 's#^#./#' | tr '\n' ' ')
 go test -vet=off -count=1 -skip 'Demo' $pkgs >/tmp/mut/out/$P/$K/pkgtests.log 2>&1; r_tests=$?
 git checkout -q -- . 
 for f in "${placed[@]}"; do rm -f "$f"; done
